@@ -68,6 +68,13 @@ def work(item):
                 cand('grid-linear:nx=%d' % nx, 'linear grid is not {a + (b-a)k/(nx-1)}', input=modelvals(m, conv, ['a', 'b']))
             else:
                 out['undecided'].append('linear grid nx=%d' % nx)
+            # shape: a + (b-a)*k/(nx-1), one rounding per operation -- every operation is monotone in IEEE arithmetic, hence the nodes are
+            # non-decreasing in k for every a<b.  Another formula may be equal in exact reals and still lose monotonicity or the end point in doubles.
+            ref_nodes = [T.fadd(T.fdiv(T.fmul(T.fsub(b, a), Fraction(k)), Fraction(nx - 1)), a) for k in range(nx)]
+            if all(xs[k] is ref_nodes[k] for k in range(nx)):
+                hold('linear grid nx=%d: node k is the term a + (b-a)*k/(nx-1) (monotone in k in double arithmetic)' % nx)
+            else:
+                cand('grid-linear:shape', 'linear grid nodes are not computed as a + (b-a)*k/(nx-1) (first seen at nx=%d: node 1 = %s); equal in exact reals does not give monotone nodes in doubles' % (nx, T.show(xs[1], 5)), shape=True)
             # sensitivity: claim x_last == a must be refutable
             r = solver.check(p.pc, conv=conv, extra=[zs[-1] != za])
             if r == 'sat':
@@ -211,6 +218,21 @@ def work(item):
             zg = [zc(conv, v) for v in grid]
             zx = conv.conv(x)
             inside = z3.And(zx >= zg[0], zx <= zg[-1])
+            if kind == 'geti-sorted':
+                # the same decision in the (1+delta) rounding model: the range test must be exact comparisons of x with the end nodes, so that the
+                # end nodes themselves are accepted and their outer neighbours rejected whatever the rounding (a test computed through a rounded
+                # centre/half-width is feasible to go wrong here)
+                cr = S.Conv('round')
+                zgr = [zc(cr, v) for v in grid]
+                zxr = cr.conv(x)
+                wrong = z3.Or(zxr == zgr[0], zxr == zgr[-1]) if p.ret == 1 else z3.Or(zxr < zgr[0], zxr > zgr[-1])
+                rr = solver.check(p.pc, conv=cr, extra=[wrong], label='geti-sorted nx=%d, rounding model: %s' % (nx, 'an end node is never rejected' if p.ret == 1 else 'a point outside the range is never accepted'))
+                if rr == 'sat':
+                    cand('geti:range-test-rounding', 'the range test of Get_i is not an exact comparison with the end nodes: in the rounding model %s' % (
+                        'x equal to an end node can be rejected' if p.ret == 1 else 'x outside [x_first,x_last] can be accepted'), ends=True)
+                    okp = False
+                elif rr != 'unsat':
+                    out['undecided'].append('geti-sorted nx=%d rounding-model range test' % nx)
             if p.ret == 1:
                 r, m, _ = solver.check(p.pc, conv=conv, extra=[inside], label='%s nx=%d: exception only for x outside [x_first,x_last]' % (kind, nx), want_model=True)
                 if r == 'sat':
@@ -251,6 +273,18 @@ def replay(chk, h, c):
     kind, nx = c['kind'], c['nx']
     chk.cov['replayed'] += 1
     inp = {k: float(Fraction(v)) for k, v in c.get('input', {}).items()}
+    if c.get('ends'):
+        # battery of end points on exactly representable and awkward ranges: a and b accepted (last interval for b), their outer neighbours rejected
+        for (a_, b_) in ((0.001, 1.0), (1.5, 7.3), (0.1, 1.0), (1.0, 10.0), (0.01, 100.0), (1.0, 1000.0), (-3.0, 7.5), (0.0, 1.0)):
+            for n_ in (2, 5, 17):
+                ret, o = h.native('h_grid', [I(n_), D(a_), D(b_), I(0), Buf('xs', n=n_)])
+                grid = o['xs']
+                for xv, inside in ((grid[0], True), (grid[-1], True), (float(np.nextafter(grid[0], -np.inf)), False), (float(np.nextafter(grid[-1], np.inf)), False)):
+                    ret, o2 = h.native('h_geti', [I(n_), Buf('grid', grid), D(xv), IBuf('idx', [0])])
+                    if (ret == 0) != inside or (inside and not (grid[o2['idx'][0]] <= xv <= grid[o2['idx'][0] + 1])):
+                        c['native'] = {'grid ends': [grid[0], grid[-1]], 'nx': n_, 'x': xv, 'accepted': ret == 0, 'expected accepted': inside}
+                        return True, 1.0
+        return False, 0.0
     if kind in ('geti-lin', 'geti-sorted'):
         if kind == 'geti-lin':
             a, b = inp['a'], inp['b']
@@ -267,6 +301,18 @@ def replay(chk, h, c):
         bad = (not inside) or i > nx - 2 or not (grid[i] <= x <= grid[i + 1])
         c['native'] = {'grid': grid, 'x': x, 'returned': i}
         return bad, 1.0
+    if kind == 'lin' and c.get('shape'):
+        # stress battery for a reshaped formula: windows whose node spacing is about one ulp, many nodes, awkward ends
+        for (a_, b_, n_) in ((1e9, 1e9 + 1e-4, 527), (1000.0, 1000.0000000001, 544), (1.0, 1.0 + 14 * 2.0 ** -52, 14), (1.0, 1.0 + 2.0 ** -52, 14), (0.0, 1.0, 1000), (-3.0, 7.5, 33),
+                            (1e-3, 1e3, 20000), (0.1, 0.7, 7), (1e9, 1e9 + 3e-6, 101), (5e15, 5e15 + 64, 97)):
+            ret, o = h.native('h_grid', [I(n_), D(a_), D(b_), I(0), Buf('xs', n=n_)])
+            xs = o['xs']
+            bad = [k for k in range(n_ - 1) if xs[k] > xs[k + 1]]
+            ulps = abs(xs[-1] - b_) / np.spacing(b_)
+            if ret != 0 or bad or xs[0] != a_ or ulps > 8:
+                c['native'] = {'a': a_, 'b': b_, 'nx': n_, 'decreasing at': bad[:3], 'x0 == a': xs[0] == a_, 'last node off b by ulp': float(ulps)}
+                return True, 1.0
+        return False, 0.0
     if kind == 'lin':
         a, b = inp.get('a', 0.0), inp.get('b', 1.0)
         ret, o = h.native('h_grid', [I(nx), D(a), D(b), I(0), Buf('xs', n=nx)])
@@ -331,7 +377,7 @@ def main(tier):
     nxs = list(range(2, top + 1))
     chk.cov['bounds'] = {'nx': '2..%d (linear, log, lookup on exact linear grids and on arbitrary strictly increasing symbolic grids)' % top,
                          'user grids': 'nx 2..6, lengths nx-1, nx, nx+1, all values symbolic', 'a,b,x': 'symbolic reals, a<b'}
-    chk.cov['domains'] = ['R (exact reals) for grid shape and lookup', 'E ((1+delta) rounding model) for the end point of the linear grid',
+    chk.cov['domains'] = ['R (exact reals) for grid shape and lookup', 'E ((1+delta) rounding model) for the end point of the linear grid and for the range test of Get_i at the end nodes',
                           'log/exp: strictly monotone mutually inverse uninterpreted functions (lemma instances listed per query)']
     chk.cov['lemmas'] = ['exp(t) = y when t = log(y)', 'y1<y2 => log y1 < log y2', 't1<t2 => exp t1 < exp t2', 'exp t > 0']
     chk.cov['stubs'] = ['std::string ctor/compare: concrete intrinsics', 'operator new/new[]: fresh blocks', 'GSL matrix alloc/free (Const members): shim']
@@ -364,6 +410,10 @@ def main(tier):
         ok, dev = safe_replay(replay, chk, h, c)
         if ok:
             chk.report(c['key'], '%s; reproduced natively%s' % (c['what'], (' (%r)' % c['native']) if 'native' in c else ''), c)
+        elif c.get('shape'):
+            # a differently written node formula that passes the native stress battery: nothing shows a violation (for the linear grid the
+            # exact-real clauses above still decide ends/spacing); recorded, not an alarm
+            chk.obligation('%s -- native stress battery (node spacing ~1 ulp, up to 200000 nodes) clean: accepted' % c['what'][:160], 'holds natively (not solver-decided)')
         else:
             chk.broken_q('counterexample for %s did not reproduce natively: encoding discrepancy' % c['key'])
     return chk.finish()
